@@ -43,7 +43,8 @@ type backendIn struct {
 	Aggs       []int    `json:"aggs"`                  // gauges per aggregator (one SendMetricsAsync per aggregator and backend)
 	Bad        [][]int  `json:"bad"`                   // per aggregator: indices of the gauges whose batch the server refuses
 	Mode       string   `json:"mode"`                  // http: ok bad500 bad400 bad429 badreset flaky all500 all429 allreset | socket: up down recover acceptclose
-	Window     int      `json:"window,omitempty"`      // max-request-elapsed-time in seconds of the mock clock (0 = 60)
+	Window     int      `json:"window,omitempty"`      // max-request-elapsed-time: seconds of the mock clock; 0 = 60; -1 = the documented "retries disabled" (otlp: 0 = no window); -2 = option not set (default 15 s)
+	Repeat     int      `json:"repeat,omitempty"`      // number of flushes with the scripted fault / cancellation before the healthy one (0 = 1)
 	RetryAfter int      `json:"retry_after,omitempty"` // Retry-After header of the 429 answers (0 = 1)
 	Cancel     string   `json:"cancel"`                // never | before | during | after
 	MaxReq     int      `json:"maxreq"`                // max concurrent requests of the backend
@@ -561,23 +562,51 @@ func runBackend(in input) hlib.Case {
 	}
 	// retry window, on the mock clock (1 s per 200 us of real time): all four post loops take their
 	// clock from the context
+	// [window] is what the option is set to; [effWindow] what the loop works with (for Coq)
 	window := 60 * time.Second
-	if bi.Window > 0 {
+	effWindow := window
+	setWindow := true
+	switch {
+	case bi.Window > 0:
 		window = time.Duration(bi.Window) * time.Second
+		effWindow = window
+	case bi.Window == -1:
+		// retries disabled: -1 for datadog / influxdb / newrelic (backoff: elapsed > -1 at the first
+		// NextBackOff => Stop); otlp rejects negative values, its 0 means "no window, max_retries only"
+		window, effWindow = -1, -1
+		if bi.Backend == "otlp" {
+			window, effWindow = 0, 0
+		}
+	case bi.Window == -2:
+		setWindow = false
+		effWindow = 15 * time.Second // defaultMaxRequestElapsedTime of all four
 	}
 	// a flush must be back within the retry window plus slack for the requests themselves
 	deadline := 12 * time.Second
-	if bi.Window > 0 && isHTTP(bi.Backend) {
+	if bi.Window != 0 && isHTTP(bi.Backend) {
 		deadline = 4 * time.Second
+	}
+	if bi.Mode == "stall" {
+		deadline = 20 * time.Second
 	}
 	switch bi.Backend {
 	case "datadog":
-		be, err = datadog.NewClient(srv.URL, "key", "ua", "default", 21, uint(maxReq), false, window, time.Second, gostatsd.TimerSubtypes{}, logger, pool)
+		v.Set("datadog.api_endpoint", srv.URL)
+		v.Set("datadog.api_key", "key")
+		v.Set("datadog.metrics_per_batch", 21)
+		v.Set("datadog.max_requests", maxReq)
+		v.Set("datadog.compress_payload", false)
+		if setWindow {
+			v.Set("datadog.max_request_elapsed_time", window)
+		}
+		be, err = datadog.NewClientFromViper(v, logger, pool)
 	case "influxdb":
 		v.Set("influxdb.api-endpoint", srv.URL)
 		v.Set("influxdb.compress-payload", false)
 		v.Set("influxdb.max-requests", maxReq)
-		v.Set("influxdb.max-request-elapsed-time", window)
+		if setWindow {
+			v.Set("influxdb.max-request-elapsed-time", window)
+		}
 		v.Set("influxdb.metrics-per-batch", 1)
 		if maxReq%2 == 0 { // v1 and v2 write APIs
 			v.Set("influxdb.api-version", 1)
@@ -592,14 +621,18 @@ func runBackend(in input) hlib.Case {
 		v.Set("newrelic.address", srv.URL)
 		v.Set("newrelic.metrics-per-batch", 21)
 		v.Set("newrelic.max-requests", maxReq)
-		v.Set("newrelic.max-request-elapsed-time", window)
+		if setWindow {
+			v.Set("newrelic.max-request-elapsed-time", window)
+		}
 		be, err = newrelic.NewClientFromViper(v, logger, pool)
 	case "otlp":
 		v.Set("otlp.metrics_endpoint", srv.URL+"/v1/metrics")
 		v.Set("otlp.logs_endpoint", srv.URL+"/v1/logs")
 		v.Set("otlp.max_requests", maxReq)
 		v.Set("otlp.max_retries", 3)
-		v.Set("otlp.max_request_elapsed_time", window)
+		if setWindow {
+			v.Set("otlp.max_request_elapsed_time", window)
+		}
 		v.Set("otlp.compress_payload", false)
 		if len(bi.Script) > 0 {
 			v.Set("otlp.metrics_per_batch", 1000) // one batch (no empty trailing one)
@@ -646,7 +679,11 @@ func runBackend(in input) hlib.Case {
 			g, e := graphite.NewClient(sock.addr, time.Second, time.Second, "stats", "counters", "timers", "gauges", "sets", "", "tags", gostatsd.TimerSubtypes{}, logger)
 			be, err, runner = g, e, g
 		} else {
-			s, e := statsdaemon.NewClient(sock.addr, time.Second, time.Second, false, network == "tcp", nil, logger)
+			addr := sock.addr
+			if bi.Mode == "stall" {
+				addr = "127.0.0.1:70000" // invalid port: every dial fails at once, the sender never drains
+			}
+			s, e := statsdaemon.NewClient(addr, time.Second, time.Second, false, network == "tcp", nil, logger)
 			be, err, runner = s, e, s
 		}
 		if err == nil {
@@ -681,6 +718,7 @@ func runBackend(in input) hlib.Case {
 	proc := &fakeProc{fr: fr}
 	flusher := statsd.NewMetricFlusher(time.Second, 0, false, proc, wrapped)
 
+	nFirst := max(1, bi.Repeat)
 	// one flushData call; returns false if it did not come back
 	flushOnce := func(f int, cancelMode string) bool {
 		fr.mu.Lock()
@@ -690,10 +728,21 @@ func runBackend(in input) hlib.Case {
 		proc.maps = nil
 		for a, n := range bi.Aggs {
 			var bad []int
-			if f == 0 && a < len(bi.Bad) {
+			if f < nFirst && a < len(bi.Bad) {
 				bad = bi.Bad[a]
 			}
 			mm := makeMap(f, a, n, bad)
+			if bi.Mode == "stall" {
+				// one timer with n values: lines "t:1.000000|ms\n" of 14 bytes, 105 per 1472-byte datagram;
+				// 105*1000 < n <= 105*1001 values fill the stream's 1000 slots inside the loop and leave
+				// the trailing packet for the final hand-over
+				vs := make([]float64, n)
+				for i := range vs {
+					vs[i] = 1
+				}
+				mm = gostatsd.NewMetricMap(false)
+				mm.Timers["t"] = map[string]gostatsd.Timer{"": gostatsd.NewTimerValues(vs)}
+			}
 			fr.aggOf[mm] = a
 			proc.maps = append(proc.maps, mm)
 		}
@@ -746,6 +795,11 @@ func runBackend(in input) hlib.Case {
 				cancelled = true
 				cancel()
 			}
+			if cancelMode == "stall" && !cancelled && el > 400*time.Millisecond {
+				// by now the producer has filled the stream's queue and is blocked in its last hand-over
+				cancelled = true
+				cancel()
+			}
 			if cancelMode == "recover" && !cancelled && el > 100*time.Millisecond {
 				cancelled = true // (not a cancellation: the listener comes back)
 				if e := sock.up(); e != nil {
@@ -753,7 +807,7 @@ func runBackend(in input) hlib.Case {
 				}
 			}
 			if el > deadline {
-				fr.monitor(fmt.Sprintf("flushData (flush %d, cancel %s) did not return within %v: a request never called back (retry window %v of the mock clock, advanced 1 s per 200 us)", f, cancelMode, deadline, window))
+				fr.monitor(fmt.Sprintf("flushData (flush %d, cancel %s) did not return within %v: a request never called back (max-request-elapsed-time %v on the mock clock)", f, cancelMode, deadline, effWindow))
 				return false
 			}
 		}
@@ -766,11 +820,24 @@ func runBackend(in input) hlib.Case {
 	if isSocket(bi.Backend) && bi.Mode == "recover" {
 		first = "recover"
 	}
-	ok := flushOnce(0, first)
-	heldFirst := ts.heldCount()
-	close(ts.release)
-	anon := []int{ts.takeAnon(), 0}
-	if ok {
+	if bi.Mode == "stall" {
+		first = "stall"
+	}
+	anon := make([]int, nFirst+1)
+	ok := true
+	heldFirst := 0
+	for f := 0; f < nFirst && ok; f++ {
+		if f > 0 {
+			fr.label("FNextFlush", "next")
+		}
+		ok = flushOnce(f, first)
+		if f == 0 {
+			heldFirst = ts.heldCount()
+			close(ts.release)
+		}
+		anon[f] = ts.takeAnon()
+	}
+	if ok && bi.Mode != "stall" {
 		// a failed flush must not prevent the next one: healthy transport, fresh context
 		ts.setMode("ok")
 		if sock != nil {
@@ -782,8 +849,8 @@ func runBackend(in input) hlib.Case {
 			}
 		}
 		fr.label("FNextFlush", "next")
-		flushOnce(1, "never")
-		anon[1] = ts.takeAnon()
+		flushOnce(nFirst, "never")
+		anon[nFirst] = ts.takeAnon()
 	}
 	cancelRun()
 	if runDone != nil {
@@ -810,7 +877,7 @@ func runBackend(in input) hlib.Case {
 	for _, rq := range fr.reqs {
 		kind := "KNull"
 		n, fails := 0, 0
-		cancelledReq := rq.flush == 0 && (bi.Cancel == "before" || bi.Cancel == "during") && rq.bidx == 0
+		cancelledReq := rq.flush < nFirst && (bi.Cancel == "before" || bi.Cancel == "during" || bi.Mode == "stall") && rq.bidx == 0
 		expect := "None"
 		lenient := false
 		var cbsCoq []string
@@ -852,11 +919,15 @@ func runBackend(in input) hlib.Case {
 		default:
 			kind = "KSocket"
 			switch {
+			case bi.Mode == "stall":
+				if rq.flush < nFirst {
+					expect = "(Some true)" // cancelled while disconnected
+				}
 			case rq.backend == "statsd-udp":
 				// a connected UDP socket reports a missing peer on a later write, if at all
-			case rq.flush == 1 && bi.Mode != "acceptclose":
+			case rq.flush == nFirst && bi.Mode != "acceptclose":
 				expect = "(Some false)" // the transport is healthy (again)
-			case rq.flush == 1:
+			case rq.flush == nFirst:
 			case bi.Mode == "down":
 				expect = "(Some true)" // never connected: cancelled while disconnected, or refused up front
 			case (bi.Mode == "up" || bi.Mode == "recover") && !cancelledReq:
@@ -919,14 +990,14 @@ func runBackend(in input) hlib.Case {
 			case "influxdb":
 				b = "Influxdb"
 			case "newrelic":
-				b = hlib.App("Newrelic", "true", hlib.Z(int64(window)))
+				b = hlib.App("Newrelic", "true", hlib.Z(int64(effWindow)))
 			case "otlp":
 				b = hlib.App("Otlp", hlib.Nat(3))
 			}
-			loops = append(loops, hlib.App("LO", b, hlib.Z(int64(window)), hlib.List(answers), hlib.List(times), res))
-			obs = append(obs, fmt.Sprintf("loop %s window=%v attempts=%v at=%v result=%v", rq.backend, window, acts, tms, rq.raw[0]))
+			loops = append(loops, hlib.App("LO", b, hlib.Z(int64(effWindow)), hlib.List(answers), hlib.List(times), res))
+			obs = append(obs, fmt.Sprintf("loop %s window=%v attempts=%v at=%v result=%v", rq.backend, effWindow, acts, tms, rq.raw[0]))
 			if len(acts) >= 64 {
-				fr.mons = append(fr.mons, fmt.Sprintf("%s: more than 64 attempts for one batch within a retry window of %v", rq.backend, window))
+				fr.mons = append(fr.mons, fmt.Sprintf("%s: more than 64 attempts for one batch within a retry window of %v", rq.backend, effWindow))
 			}
 		}
 	}
@@ -941,8 +1012,11 @@ func runBackend(in input) hlib.Case {
 	if len(bi.Script) > 0 {
 		c.Class = fmt.Sprintf("backend/%s/loop/%s", bi.Backend, bi.Cancel)
 		c.Nontrivial = len(bi.Script) > 1 || bi.Script[0] != "ok"
-	} else if bi.Window > 0 && isHTTP(bi.Backend) && strings.HasPrefix(bi.Mode, "all") {
-		c.Class = fmt.Sprintf("backend/%s/%s-window/%s", bi.Backend, bi.Mode, bi.Cancel)
+	} else if bi.Window != 0 && isHTTP(bi.Backend) && strings.HasPrefix(bi.Mode, "all") {
+		wk := map[bool]string{true: "short"}[bi.Window > 0] + map[int]string{-1: "disabled", -2: "default"}[bi.Window]
+		c.Class = fmt.Sprintf("backend/%s/%s-window-%s/%s", bi.Backend, bi.Mode, wk, bi.Cancel)
+	} else if bi.Repeat > 1 {
+		c.Class = fmt.Sprintf("backend/%s/%s/cancelled-many", bi.Backend, bi.Mode)
 	}
 	return c
 }
@@ -960,15 +1034,22 @@ var backendNames = []string{"datadog", "influxdb", "newrelic", "otlp", "cloudwat
 var retrying = []string{"newrelic", "datadog", "influxdb", "otlp"}
 var persistent = []string{"all429", "all500", "allreset"}
 
+var windowKinds = []int{-1, 1, -2} // retries disabled | a short window (1..3 s) | option not set (15 s)
+var sockets = []string{"statsd-tcp", "statsd-udp", "graphite"}
+
 func genBackend(r *hlib.Rand, k int) *backendIn {
-	if k < 2*len(retrying)*len(persistent) {
-		// every run: each retrying HTTP backend under a fault that outlasts a short retry window (always
-		// 429 + Retry-After shorter / longer than the window, always 5xx, always a connection error):
-		// the window must end and the request must call back once, with an error
-		in := &backendIn{Backend: retrying[k%len(retrying)], Mode: persistent[(k/len(retrying))%len(persistent)],
-			MaxReq: 1 + r.Intn(3), Window: 1 + r.Intn(3), RetryAfter: hlib.Pick(r, []int{1, 1, 2, 5, 100}), Cancel: "never"}
-		if k >= len(retrying)*len(persistent) {
-			in.Cancel = hlib.Pick(r, []string{"never", "after"})
+	nb, nm, nw := len(retrying), len(persistent), len(windowKinds)
+	if k < nb*nm*nw {
+		// every run: each retrying HTTP backend, built through its NewClientFromViper, x a fault that
+		// never ends (always 429 + Retry-After shorter / longer than the window, always 5xx, always a
+		// connection error) x max-request-elapsed-time {-1 = retries disabled: the first failure is
+		// final; 1..3 s; not set}: the loop must end and the request call back once, with an error
+		in := &backendIn{Backend: retrying[k%nb], Mode: persistent[(k/nb)%nm], Window: windowKinds[(k/(nb*nm))%nw],
+			MaxReq: 1 + r.Intn(3), RetryAfter: hlib.Pick(r, []int{1, 1, 2, 5, 100}), Cancel: hlib.Pick(r, []string{"never", "never", "after"})}
+		if in.Window == 1 {
+			in.Window = 1 + r.Intn(3)
+		}
+		if r.Bool() {
 			in.Extra = []string{"null"}
 		}
 		for a, naggs := 0, 1+r.Intn(2); a < naggs; a++ {
@@ -977,10 +1058,11 @@ func genBackend(r *hlib.Rand, k int) *backendIn {
 		}
 		return in
 	}
-	k -= 2 * len(retrying) * len(persistent)
-	if k < 24 {
+	k -= nb * nm * nw
+	if k < 48 {
 		// post loops: one batch against a per-attempt answer script; the last answer repeats
-		in := &backendIn{Backend: retrying[k%len(retrying)], Mode: "script", MaxReq: 1 + r.Intn(2), Window: 1 + r.Intn(4),
+		in := &backendIn{Backend: retrying[k%nb], Mode: "script", MaxReq: 1 + r.Intn(2),
+			Window: hlib.Pick(r, []int{1, 2, 3, 4, 2, 3, -1, -2}),
 			Cancel: hlib.Pick(r, []string{"never", "never", "never", "after"}), Aggs: []int{1}, Bad: [][]int{nil}}
 		acts := []string{"500", "500", "400", "reset", "429", "429:1", "429:2", "429:5", "429:0"}
 		for j, n := 0, r.Intn(5); j < n; j++ {
@@ -993,7 +1075,29 @@ func genBackend(r *hlib.Rand, k int) *backendIn {
 		}
 		return in
 	}
-	k -= 24
+	k -= 48
+	if k < 9 {
+		// socket backends: many small flushes whose context is already done (shutdown racing the flush):
+		// every select that has a ctx.Done() arm - in SendMetricsAsync and in each hand-over of a
+		// packet to the sender - takes either arm
+		in := &backendIn{Backend: sockets[k%3], Mode: []string{"up", "down", "up"}[(k/3)%3], Cancel: "before", Repeat: 25 + r.Intn(15), MaxReq: 1}
+		for a, naggs := 0, 1+r.Intn(2); a < naggs; a++ {
+			in.Aggs = append(in.Aggs, 1+r.Intn(3))
+			in.Bad = append(in.Bad, nil)
+		}
+		if k >= 6 {
+			in.Extra = []string{"null"}
+		}
+		return in
+	}
+	k -= 9
+	if k < 1 {
+		// statsdaemon over UDP whose sender never connects (and so never drains the stream) and a flush
+		// that fills the stream's 1000 packet slots exactly: the producer blocks in its LAST hand-over,
+		// the flush context ends while it is blocked there
+		return &backendIn{Backend: "statsd-udp", Mode: "stall", Cancel: "never", MaxReq: 1, Aggs: []int{105*1000 + 1 + r.Intn(105)}, Bad: [][]int{nil}}
+	}
+	k -= 1
 	in := &backendIn{Backend: backendNames[k%len(backendNames)], MaxReq: 1 + r.Intn(4)}
 	naggs := hlib.Pick(r, []int{1, 1, 2, 3})
 	many := 5
